@@ -25,7 +25,7 @@ ANYTHING ELSE raises Unsupported naming the node: the translator never guesses.
 Partial operations (d[k], data[attr], `x in s` with s possibly None) become a py_guard in front of the statement
 that evaluates them, raising KeyError / TypeError as Python would; they are rejected where evaluation is
 conditional (right operand of and/or).  A local may only be read where it is definitely assigned."""
-import ast, os, sys, warnings
+import ast, re, os, sys, warnings
 warnings.filterwarnings("ignore", category=SyntaxWarning)       # invalid escape sequences in docstrings of the parsed source
 
 # ------------------------------------------------------------------------------------------ types
@@ -58,6 +58,10 @@ ERASED = (("Attr",), ("Wrapper",), ("Str",), ("SelfObject",))        # parameter
 EDGE = Tuple(NODE, NODE)
 DEDGE = Tuple(NODE, NODE, EDATA)
 NUMERIC = {INT: 0, NUM: 1, EXT: 2}
+
+
+class Restart(Exception):
+    """the translation pass has learnt that a local cannot be inlined: start over"""
 
 
 class Unsupported(Exception):
@@ -502,6 +506,8 @@ class Fn:
             if isinstance(t, ast.Name): return [t.id]
             if isinstance(t, ast.Tuple) and all(isinstance(x, ast.Name) for x in t.elts): return [x.id for x in t.elts]
             raise Unsupported("loop target", t)
+        self.plain_assigns = {}  # name -> number of `name = expr` statements (anywhere); names that are also augmented / appended to are in self.mutated
+        self.mutated = set()
         self.assign_count = {}   # name -> number of assignment statements
         self.assign_value = {}   # name -> value node of its (last seen) plain top-level assignment
         def walk(stmts, depth=0):
@@ -516,16 +522,19 @@ class Fn:
                         raise Unsupported("assignment target (only `name = expr`)", s)
                     n = s.targets[0].id
                     if n not in self.locals: self.locals.append(n)
+                    self.plain_assigns[n] = self.plain_assigns.get(n, 0) + 1
                     self.assign_count[n] = self.assign_count.get(n, 0) + (1 if depth == 0 else 2)   # inside a loop / branch: not stable
                     self.assign_value[n] = s.value
                 elif isinstance(s, ast.AugAssign):
                     if not isinstance(s.target, ast.Name):
                         raise Unsupported("augmented-assignment target", s)
                     if s.target.id not in self.locals: self.locals.append(s.target.id)
+                    self.mutated.add(s.target.id)
                     self.assign_count[s.target.id] = self.assign_count.get(s.target.id, 0) + 2
                 elif isinstance(s, ast.Expr) and self.append_call(s.value) is not None:
                     n = self.append_call(s.value)[0]
                     if n in self.params: raise Unsupported("append to a parameter (the caller's list would be mutated)", s)
+                    self.mutated.add(n)
                     if n not in self.locals: self.locals.append(n)
                     self.assign_count[n] = self.assign_count.get(n, 0) + 2
                 elif isinstance(s, ast.While):
@@ -568,6 +577,8 @@ class Fn:
 
     def e_Name(self, e, env):
         n = e.id
+        if n in env.get("inline", {}):          # a local bound once to a state-free expression: its value
+            return env["inline"][n][0], env["inline"][n][1], []
         if n in self.locals:
             if n not in env["defined"]:
                 raise Unsupported("read of local %r where it may be unassigned" % n, e)
@@ -1278,6 +1289,7 @@ class Fn:
             else:
                 bounds.append({"lb": "(0#1)%Q", "ub": "(1#1)%Q"}[k])
         vt = b.get("var_type")
+        while isinstance(vt, ast.Name) and vt.id in env.get("inline", {}): vt = env["inline"][vt.id][2]
         vt = "integer" if vt is None else (vt.value if isinstance(vt, ast.Constant) else None)
         if vt not in ("integer", "continuous"): raise Unsupported("var_type of add_variables", e)
         fam = PREFIX_FAMILY[pre.values[0].value]
@@ -1299,6 +1311,7 @@ class Fn:
             else:
                 bounds.append({"lb": "(0#1)%Q", "ub": "(1#1)%Q"}[k])
         vt = b.get("var_type")
+        while isinstance(vt, ast.Name) and vt.id in env.get("inline", {}): vt = env["inline"][vt.id][2]       # a local bound once to the expression
         if vt is None: isint = "true"
         elif isinstance(vt, ast.Constant) and vt.value in ("integer", "continuous"): isint = "true" if vt.value == "integer" else "false"
         elif isinstance(vt, ast.IfExp) and isinstance(vt.body, ast.Constant) and isinstance(vt.orelse, ast.Constant) \
@@ -1513,6 +1526,17 @@ class Fn:
                 a = self.assign_to(s.targets[0].id, val, vty, env, s)
             else: raise Unsupported("assignment target", s)
             return self.guarded(g, "py_seq\n%s\n%s" % (self.ind("py_assign (fun s => emit_out %s [] s)" % cols), self.ind(a))), True
+        if isinstance(s, ast.Assign) and self.inline_ok and s.targets[0].id not in self.no_inline and s.targets[0].id not in self.params \
+                and self.plain_assigns.get(s.targets[0].id) == 1 and s.targets[0].id not in self.mutated:
+            # `name = expr`, the only binding of the name, expr free of the encoder's own state: every later read IS that value (let-binding).
+            # The partial operations of expr stay where Python performs them: here.
+            n = s.targets[0].id
+            t, ty, g = self.expr(s.value, env)
+            if re.search(r"[ (]s\)", t) or has_bot(ty) or ty[0] in ("VarDict", "VarDictK"):
+                self.no_inline.add(n); raise Restart()
+            env["inline"] = dict(env.get("inline", {}), **{n: (t, ty, s.value)})
+            env["defined"] = env["defined"] | {n}; self.inlined.add(n)
+            return (self.guarded(g, "py_skip") if g else None), True
         if isinstance(s, ast.Assign):
             t, ty, g = self.expr(s.value, env)
             n = s.targets[0].id
@@ -1611,11 +1635,11 @@ class Fn:
 
     def block(self, stmts, env):
         terms = []; falls = True
-        pl0 = dict(env.get("postloop", {}))
+        pl0 = dict(env.get("postloop", {})); in0 = dict(env.get("inline", {}))
         try:
             return self.block_(stmts, env)
         finally:
-            env["postloop"] = pl0
+            env["postloop"] = pl0; env["inline"] = in0
 
     def block_(self, stmts, env):
         terms = []; falls = True
@@ -1643,6 +1667,17 @@ class Fn:
 
     # -------------------------------------------------------------------------------- whole function
     def translate(self):
+        self.inline_ok = bool(self.emits and self.selfobj)        # the encoders of the model classes
+        self.no_inline = set()
+        for _ in range(len(self.locals) + 2):
+            try:
+                self.inlined = set()
+                return self.translate_once()
+            except Restart:
+                continue
+        raise Unsupported("inlining of single-assignment locals did not stabilise", self.fdef)
+
+    def translate_once(self):
         vt = {p: self.ptype[p] for p in self.state_params}
         ret = BOT
         final = {}; final_ret = None
@@ -1654,7 +1689,8 @@ class Fn:
             vt = env["vt"]; ret = env["ret"][0]
         else:
             raise Unsupported("type inference did not stabilise", self.fdef)
-        for n in self.locals:
+        fields = [n for n in self.locals if n not in self.inlined]
+        for n in fields:
             if n not in vt or has_bot(vt[n]):
                 raise Unsupported("type of local %r could not be determined (%s)" % (n, show(vt.get(n, BOT))), self.fdef)
         if ret == BOT and (self.emits or self.selfobj): ret = NONE        # an emitter falls off its end (returns None)
@@ -1663,7 +1699,7 @@ class Fn:
             raise Unsupported("return type %s, the typed embedding declares %s" % (show(ret), show(self.spec["ret"])), self.fdef)
         # final field numbering: by Gallina type, then by first assignment — independent of the Python names and of the
         # order of assignments to locals of different types
-        order = sorted(self.locals, key=lambda n: (gty(vt[n]), self.locals.index(n)))
+        order = sorted(fields, key=lambda n: (gty(vt[n]), self.locals.index(n)))
         self.xname = {n: "x%d" % i for i, n in enumerate(order)}
         self.locals_in_field_order = order
         env = dict(vt=dict(vt), defined=set(self.state_params) | {"self." + a for a in self.s_out if a in self.s_in}, bound={}, inloop=False, ret=[ret], final=vt, final_ret=ret, ncomp=[0], aliased=set(), iterating=set(), cond_defs={}, narrow={}, postloop={})
@@ -1707,6 +1743,9 @@ class Fn:
             L.append("Definition set_%s (v_ : %s) (s : st) : st := mk_st %s." % (f, ty, args))
         if self.emits:
             L.append("Definition emit_out (cs : list col) (rs : list row) (s : st) : st := set_o_rows (o_rows s ++ rs) (set_o_cols (o_cols s ++ cs) s).")
+            # for the proof scripts: reduce projections of updated states, whatever fields this version of the source needs
+            L.append("Ltac gen_simpl := cbn [%s emit_out fst snd]." % " ".join([f for f, _ in fields] + ["set_" + f for f, _ in fields]))
+            L.append("Tactic Notation \"gen_simpl\" \"in\" hyp(H) := cbn [%s emit_out fst snd] in H." % " ".join([f for f, _ in fields] + ["set_" + f for f, _ in fields]))
         gparams = [(self.aname[p], gty(self.ptype[p])) for p in self.params if self.ptype[p] not in ERASED]
         gparams += [("in_" + a, gty(ty)) for a, ty in (self.selfobj["inputs"] if self.selfobj else []) if ty not in ERASED]
         gparams += [("in_" + nm, gty(ty)) for nm, ty in self.s_extra]
